@@ -231,6 +231,7 @@ func HarnessAttrQuery() {
 	}
 	if vrtProp("C18") {
 		vrtAssert("C18.single-document", rp.Docs <= 1 && rp.Forms == 0)
+		vrtC18Reply(rp, rp.Kind == "xml", d.decoded)
 	}
 }
 
